@@ -13,7 +13,7 @@ use vpmodel::spec::{ChainSpec, Src};
 pub const DEF: PropDef = PropDef {
     id: "C15",
     level: "exploration",
-    rule: "chains on all 8 coins with arbitrary (non-monotonic) u32 timestamps >= 1, every script type, values from classes that produce ties for both maxima, coinbase-shaped transactions in any position, base heights up to 10^7 and, for a quarter of the chains, across a halving boundary 210000*k for k = 1..70 (subsidy one unit in era 32, zero from era 33, shift undefined from era 64), a fifth of the chains with outputs of 2^63 units or more - one, or several so that the total volume, the fee total or one transaction's value exceed 2^64 -, optional --start/--end; the simplestats report is parsed and every figure compared with an independent recomputation: integers exactly (blocks, txs, inputs, outputs, fee units, volume units, biggest value/size with height and txid - first on ties -, per-type counts and first occurrences), means and shares within half a unit of the last printed decimal of the exact rational value. Non-trivial = >=3 blocks, >=2 script types and (a decreasing timestamp pair or timestamp gaps summing beyond 2^32); distinct by chain hash. The thorough tier repeats every case on the release build (wrap-around instead of overflow panic).",
+    rule: "chains on all 8 coins with arbitrary (non-monotonic) u32 timestamps >= 1, every script type, values from classes that produce ties for both maxima, coinbase-shaped transactions in any position, base heights up to 10^7 and, for a quarter of the chains, across a halving boundary 210000*k for k = 1..70 (subsidy one unit in era 32, zero from era 33, shift undefined from era 64), a fifth of the chains with outputs of 2^63 units or more - one, or several so that the total volume, the fee total or one transaction's value exceed 2^64 -, optional --start/--end; the simplestats report is parsed and every figure compared with an independent recomputation: integers exactly (blocks, txs, inputs, outputs, fee units, volume units, biggest value/size with height and txid - first on ties -, per-type counts and first occurrences), means and shares within half a unit of the last printed decimal of the exact rational value. Non-trivial = >=3 blocks, >=2 script types and (a decreasing timestamp pair or timestamp gaps summing beyond 2^32); distinct by chain hash. The thorough tier repeats every case on the release build (wrap-around instead of overflow panic). Part 'more-than-2^16-samples': a 66 300-block chain whose last 700 blocks are bigger and slower (whole and as a range) and a block with 70 000 transactions. Header times include a class within hours of the current wall clock.",
     assumptions: &["timestamps are >= 1 (the tool uses 0 as 'no previous block')", "means with an empty sample (single block: time between blocks) are not pinned down by the statement"],
     run,
     replay,
@@ -175,12 +175,27 @@ fn run(eng: &Engine, a: &Args) {
         fixed.push(Case { chain: vpmodel::spec::chain_from_scripts(vpmodel::chain::ALL_COINS[(k * 3) % 8], &scripts, vals, 1, 2, 0, 1_500_000_000), start_sel: None, end_sel: None });
     }
     eng.enumerate("fixed-defect-regressions", fixed, check);
+    // sample counts beyond 2^16: (1) 66 300 blocks whose last 700 are several times bigger and twelve times slower than
+    // the rest (a mean that is not sum / count shows in the block-size and block-interval figures), whole and as a
+    // range; (2) one block with 70 000 transactions (per-transaction means over more than 2^16 samples)
+    let scripts: Vec<Vec<u8>> = (0..66_300usize).map(|i| { let mut s = vec![0x76, 0xa9, 0x14]; s.extend([(i & 0xff) as u8, (i >> 8) as u8, (i >> 16) as u8].iter().cycle().take(20)); s.extend([0x88, 0xac]); s }).collect();
+    let mut l1 = vpmodel::spec::chain_from_scripts(vpmodel::chain::Coin::Litecoin, &scripts, &[1000, 2500, 7], 1, 1, 0, 1_300_000_000);
+    for (k, b) in l1.blocks.iter_mut().enumerate().skip(65_600) {
+        let proto = b.txs[0].outputs[0].clone();
+        for j in 0..40u64 {
+            b.txs[0].outputs.push(vpmodel::spec::OutSpec { value: 10 + j, ..proto.clone() });
+        }
+        b.time = 1_300_000_000 + 600 * 65_600 + 7200 * (k as u32 - 65_600);
+    }
+    let scripts: Vec<Vec<u8>> = (0..70_003usize).map(|i| vec![0x51 + (i % 16) as u8, 0x75, (i & 0x7f) as u8 | 0x80, 0x75]).collect();
+    let l2 = vpmodel::spec::chain_from_scripts(vpmodel::chain::Coin::Bitcoin, &scripts, &[5, 60_000, 0], 1, 70_000, 0, 1_400_000_000);
+    eng.enumerate("more-than-2^16-samples", vec![Case { chain: l1.clone(), start_sel: None, end_sel: None }, Case { chain: l1, start_sel: Some(3), end_sel: Some(65_400) }, Case { chain: l2, start_sel: None, end_sel: None }], check);
     eng.explore("stats-vs-recomputation", scaled(n, a), move || strategy(tier), check);
 }
 
 fn replay(part: &str, case: serde_json::Value) -> Option<Verdict> {
     match part {
-        "stats-vs-recomputation" | "fixed-defect-regressions" => Some(check(&serde_json::from_value(case).ok()?)),
+        "stats-vs-recomputation" | "fixed-defect-regressions" | "more-than-2^16-samples" => Some(check(&serde_json::from_value(case).ok()?)),
         _ => None,
     }
 }
